@@ -6,7 +6,7 @@ PROP = dict(
                'static.queues.no_use_after_move', 'nq.sync.acquire', 'nq.scq.requires', 'nq.guard.protected', 'nq.node_ctor.inv', 'nq.inv.preserved', 'nq.push.appends', 'nq.push.rollback', 'nq.push.finalizes',
                'nq.push.publish_order', 'nq.push.hand_over', 'nq.pop.empty_iff', 'nq.pop.takes_first', 'nq.pop.empty_validated', 'nq.pop.hand_over',
                'nq.pop.threshold_reset', 'nq.pop.retire_once', 'nq.commit', 'nq.own.exactly_once',
-               'scq.dequeue.retries_bounded', 'scq.enqueue.appends', 'scq.enqueue.finalized_fails', 'scq.dequeue.takes_first', 'scq.dequeue.empty_iff', 'scq.inv.preserved',
+               'scq.dequeue.retries_bounded', 'scq.sync.orders', 'scq.enqueue.appends', 'scq.enqueue.finalized_fails', 'scq.dequeue.takes_first', 'scq.dequeue.empty_iff', 'scq.inv.preserved',
                'scq.catchup.keeps_finalized', 'scq.finalize.sets', 'scq.enqueue.skips_overtaken', 'scq.dequeue.blocks_ticket'],
   explanation='Sequential FIFO refinement per operation from any invariant state (node/ring state symbolic), node hand-over and finalisation, commit-point validation in INT mode, '
               'on the extracted text of nikolaev_queue / nikolaev_scq (michael_scott_queue and ramalhete_queue units are added below when present). '
